@@ -4,6 +4,7 @@ import json
 import os
 import random
 
+from common import REPLAYS as common_REPLAYS
 from common import (Broken, VERIF, NCPU, build, run_th, parallel_th, rundir, tlc, require_ok,
                     tlc_counterexample, log)
 
@@ -256,7 +257,7 @@ def validate_traces(chk, execs, progs, fields, invariants, properties=(), name="
         import re
         import shutil
         m = re.search(r'"maxl", (\d+), "of", (\d+)', r.out)
-        keep = os.path.join(VERIF, "replays", chk.pid)
+        keep = os.path.join(common_REPLAYS, chk.pid)
         os.makedirs(keep, exist_ok=True)
         kept = os.path.join(keep, os.path.basename(tp))
         shutil.copy(tp, kept)
